@@ -1301,6 +1301,14 @@ func (e *fnEnc) afterCall(st *state, v *ssa.Call) {
 		return
 	}
 	key := e.calleeKey(v.Common())
+	if bi, isBuiltin := v.Common().Value.(*ssa.Builtin); isBuiltin {
+		// builtins are named "builtin:<name>:<type of the first argument>", e.g.
+		// builtin:append:[]*github.com/ethereum/go-ethereum/p2p/enode.Node
+		key = "builtin:" + bi.Name()
+		if len(v.Common().Args) > 0 {
+			key += ":" + v.Common().Args[0].Type().String()
+		}
+	}
 	for i, ac := range e.fc.AfterCall {
 		if !strings.Contains(key, ac.Callee) {
 			continue
